@@ -199,6 +199,11 @@ func Drive(id, tier string, seed int64, root, exe string) int {
 		// the worker did not finish
 		inflight, has := ReadJournal(filepath.Join(out, fmt.Sprintf("journal.%d", s)))
 		tail := tailFile(filepath.Join(out, fmt.Sprintf("stderr.%d", s)), 1500)
+		if r.exit == 3 {
+			// the worker itself reported a hanging case as a violation and stopped
+			total.Counters["shards_incomplete"]++
+			continue
+		}
 		if r.timedOut {
 			total.Inconclusive["worker_watchdog"]++
 			total.Notes = append(total.Notes, fmt.Sprintf("shard %d hit the %ds wall-clock watchdog (inconclusive); case in flight: %s", s, wd, Short(string(inflight), 300)))
